@@ -137,6 +137,8 @@ func doDump(c *Ctx, what string) {
 				}
 			}
 		}
+	case "loops":
+		dumpLoops(c)
 	case "mapranges":
 		for _, f := range modFunctions(c) {
 			allInstrs(f, func(in ssa.Instruction) {
@@ -158,4 +160,63 @@ func doDump(c *Ctx, what string) {
 		}
 		fmt.Printf("regs=%d kinds=%v profiles=%d pkgs=%d mod=%d load=%.1fs ssa=%.1fs\n", len(cs.Regs), kinds, len(cs.ProfileRegs), c.NumPkgs, len(c.Mod), c.loadS, c.ssaS)
 	}
+}
+
+func dumpLoops(c *Ctx) {
+	cs := BuildCensus(c)
+	sf := NewStatusFlow(c)
+	e := NewEffects(c)
+	reach := lintReachable(c, cs, e)
+	var fns []*ssa.Function
+	for f := range reach {
+		fns = append(fns, f)
+	}
+	sort.Slice(fns, func(i, j int) bool { return fns[i].String() < fns[j].String() })
+	total, multi := 0, 0
+	for _, f := range fns {
+		for _, l := range naturalLoops(f) {
+			exits := l.earlyExits()
+			if len(exits) == 0 {
+				continue
+			}
+			total++
+			verd := map[string]bool{}
+			for _, ex := range exits {
+				if ex.kind == "break" {
+					verd["BREAK"] = true
+					continue
+				}
+				for _, ret := range ex.rets {
+					for i, rv := range retVals(ret) {
+						if sf.isResultPtr(rv.Type()) {
+							ss := sf.resultVal(rv, f, map[ssa.Value]bool{})
+							for _, n := range ss.Names() {
+								verd[n] = true
+							}
+							if len(ss.Unknown) > 0 {
+								verd["?"] = true
+							}
+						} else if sf.isStatusT(rv.Type()) {
+							ss := sf.statusOf(rv, f, map[ssa.Value]bool{})
+							for _, n := range ss.Names() {
+								verd[n] = true
+							}
+						} else {
+							verd[fmt.Sprintf("ret%d:%s", i, trimStr(apath(rv), 30))] = true
+						}
+					}
+				}
+			}
+			if len(verd) > 1 {
+				multi++
+				var vs []string
+				for k := range verd {
+					vs = append(vs, k)
+				}
+				sort.Strings(vs)
+				fmt.Printf("%s %s hdr=%d verdicts=%v iter=%v\n", c.Pos(l.header.Instrs[0].Pos()), fname(f), l.header.Index, vs, l.iterated())
+			}
+		}
+	}
+	fmt.Println("loops with early exits:", total, "multi-verdict:", multi)
 }
